@@ -314,20 +314,21 @@ NOT_YET = "check not built yet (work in progress; see DESIGN.md section 8 build 
 ADDENDA = {
     'C01': " Also: the same planner object planning on a second, different problem (nothing may carry over), and one skeleton with "
            "SYMBOLIC transition probabilities (a zero-reward state looping on itself with probability p: masked only when p is exactly 1).",
-    'C02': " Also: the same policy object evaluated twice on the same MDP object (second answer checked), and one undiscounted chain with "
+    'C02': " Also: a policy table that lists the model's states / actions in another order; the same policy object evaluated twice on the same MDP object (second answer checked), and one undiscounted chain with "
            "SYMBOLIC entry / leak probabilities (minus infinity for every positive entry probability into a costly closed class, finite r/q for every positive leak q).",
     'C03': " Also: the same planner object planning on a second, different problem; non-uniform two-state initial distributions; chain values down to -80.",
     'C04': " Also: the same planner object planning first on a problem in which a state is ordinary and then on one in which it is absorbing.",
-    'C05': " Also: two conversions to the shortest-path view alive at once (convert, convert another problem, search on the first view).",
+    'C05': " Also: a multigraph (several actions to the same successor at different symbolic costs); two conversions to the shortest-path view alive at once (convert, convert another problem, search on the first view).",
     'C06': " Also: several reachability queries with different cut-offs (keyword and positional) on the same object.",
-    'C07': " Also: an observation space declared explicitly in a non-sorted order (index == position in observation_list).",
-    'C08': " Also: the same planner object planning on a second POMDP over the same labels.",
+    'C07': " Also: Belief objects whose states are listed in another order than the model's state list; an observation space declared explicitly in a non-sorted order (index == position in observation_list).",
+    'C08': " Also: the same planner object planning on a second POMDP over the same labels; Belief objects listed in another order than the model's state list.",
+    'C09': " Also: bounded policy iteration with an iteration budget of 0 (no LP solved): the reported value is the initial-distribution expectation of the returned table at the best initial node.",
     'C11': " Also: kernels of mixed shapes in chain (one-point rows of mass 1, 0 and 1/2, distribution objects), sampling after in-place re-weighting / key replacement of a DictDistribution.",
-    'C12': " Also: domains that hold both x and (x,), and values().",
+    'C12': " Also: domains that hold both x and (x,), values(), and ellipses that stand for zero fields.",
     'C13': " Also: sub-goal options created without a name (the default) in a problem that is built twice in one process.",
-    'C15': " Also: several option queries on the same semi-MDP object (another option with the same name, a changed number of simulations).",
-    'C16': " Also: discounts next to 1 (999/1000 ...) on skeletons with several self-looping states, and the same planner object planning on a second problem.",
-    'C17': " Also an inductive step: ONE model update (_observe) from an arbitrary reachable state of the learner's tables - known pairs are frozen, counts stay consistent, the re-plan satisfies the Bellman residual of the counted model.",
+    'C15': " Also: every reported (end state, duration, reward) triple is the triple of one of the simulations; several option queries on the same semi-MDP object (another option with the same name, a changed number of simulations).",
+    'C16': " Also: discounts next to 1 (999/1000 ...) on skeletons with several self-looping states, a skeleton whose states each lack one of three actions, and the same planner object planning on a second problem.",
+    'C17': " Also: action labels listed in a non-sorted order; an inductive step: ONE model update (_observe) from an arbitrary reachable state of the learner's tables - known pairs are frozen, counts stay consistent, the re-plan satisfies the Bellman residual of the counted model.",
     'C18': " Also: a second game object (another board of the same size) built and queried first in the same process.",
     'C20': " Also: the same grid-world object asked about every cell and action after the symbolic first query.",
 }
